@@ -12,13 +12,15 @@
    identified by (time, priority, handler, creation rank in its replication).
    [lapp n b]: the logs n on top of the earlier logs b.
 
-   Random streams are not part of Sim/Model.v: "with the same seeds" enters
-   the theorems as "the same model program"; that a stream re-seeded in
-   construct_model repeats its sequence is C12 (Streams/), and runs whose
-   handlers and listeners draw numbers are covered by the composed model of
-   C07 (Sim/Repro.v) and by the correspondence check. *)
+   Random streams are not part of Sim/Model.v: for its theorems "with the same
+   seeds" is "the same model program".  The composed model of C07 (Sim/Repro.v)
+   has the streams (as their raw output sequences, re-seeded by
+   construct_model), listeners and statistics: C06_composed_reinit_fresh is the
+   isolation theorem for it.  That a re-seeded MersenneTwister repeats its
+   sequence is C12 (Streams/). *)
 From Coq Require Import ZArith List Bool.
-From PV Require Import EventList.Key Sim.Model Sim.Case Sim.Order Sim.Horizon Sim.Reinit Sim.ReinitProofs.
+From PV Require Import EventList.Key Sim.Model Sim.Case Sim.Order Sim.Horizon Sim.Reinit Sim.ReinitProofs
+  Sim.Repro Sim.ReproProofs.
 Import ListNotations.
 Local Open Scope Z_scope.
 
@@ -146,6 +148,33 @@ Theorem C06_run_id_monotone_invariant : forall f n' s fuel p cs,
   snd rb = snd ra /\ logs_of (fst rb) = logs_of (fst ra).
 Proof. exact run_id_monotone_invariant. Qed.
 Print Assumptions C06_run_id_monotone_invariant.
+
+(* the same for the composed model of C07 (Sim/Repro.v): handlers and listeners
+   that fire, subscribe / unsubscribe, draw delays and observed values from
+   seeded streams which construct_model re-seeds, statistics built in
+   construct_model.  y: ANY state that is not running; h: any further commands
+   with any models taking turns.  The re-initialised simulator and a brand-new
+   one give the same snapshots, and the former logs on top of its earlier logs
+   exactly what the latter logs -- executed events, outcomes, notifications,
+   statistics feed, deliveries to listeners, random draws; producer, streams
+   and reported statistics are equal ("with the same seeds": the streams are
+   part of this model). *)
+Theorem C06_composed_reinit_fresh : forall nint M r y fuel hf h,
+  running (y_sim y) = false -> NoDup (keys_of (ym_stats M)) ->
+  let a := fst (fst (ydo_init nint M hf y r)) in
+  let b := fst (fst (ydo_init nint M hf (y0 (strat (y_sim y))) r)) in
+  let ra := y_hist nint fuel hf a h in
+  let rb := y_hist nint fuel hf b h in
+  let ya := fst (fst ra) in let yb := fst (fst rb) in
+  snd (fst (ydo_init nint M hf y r)) = ResOk
+  /\ snd (fst ra) = snd (fst rb) /\ snd ra = snd rb
+  /\ logs_of (y_sim ya) = lapp (logs_of (y_sim yb)) (logs_of (y_sim y))
+  /\ y_dlv ya = y_dlv yb ++ y_dlv y
+  /\ y_drw ya = y_drw yb ++ y_drw y
+  /\ y_subm ya = y_subm yb /\ y_str ya = y_str yb /\ y_ser ya = y_ser yb
+  /\ yreported ya = yreported yb.
+Proof. exact y_reinit_fresh. Qed.
+Print Assumptions C06_composed_reinit_fresh.
 
 (* ---- clause: "initialising while running is refused" ------------------------- *)
 Theorem C06_initialize_refused_while_running : forall p s r,
